@@ -99,6 +99,14 @@ func VerifC10BuiltinCalls() {
 	if k := verifChoiceOf("callable"); (k == 8 || k == 21) && len(args) >= 2 && py.VerifC10IsInt(args[0]) && py.VerifC10IsInt(args[1]) {
 		return
 	}
+	// divmod with a float operand: VerifC15FloatMod decides float divmod (a Go panic there is a violation too)
+	if k := verifChoiceOf("callable"); k == 8 && len(args) >= 2 {
+		_, f0 := args[0].(py.Float)
+		_, f1 := args[1].(py.Float)
+		if f0 || f1 {
+			return
+		}
+	}
 	_, _ = py.Call(fn, args, nil)
 	verifReach("called")
 	verifAssert(true, "the operation came back (value or error) without a Go panic, for every value of the symbolic operands on this path")
